@@ -800,7 +800,7 @@ def mcp_calls(rng, intent, pop, recvs, use_config, tier):
             t = "audit-" + mode
         term = "(MtIds %s (mkMI %s %s %s))" % (KIND[verb], C.coq_bool(unknown), coq_maudit(args), body)
         calls.append(dict(transport="mcp", kind="ids", verb=verb, tool=IDS_TOOL[verb], args=args, term=term, tag=t, expect=expect,
-                          spec=dict(raw=strs)))
+                          spec=dict(raw=strs), parts=dict(unknown=unknown, body=body)))
 
     def filter_call(verb, mode="good", force=None, extra=None, tag=None, raw=None):
         f = gen_filter_fields(rng, intent, recvs, verb, force)
@@ -851,7 +851,11 @@ def mcp_calls(rng, intent, pop, recvs, use_config, tier):
             coq_target(sf.get("target", "")), coq_rstate(sf.get("state", "")), coq_before(f), lterm,
             C.coq_bool(args.get("preview_only") is True))
         calls.append(dict(transport="mcp", kind="filter", verb=verb, tool="messages_%s_by_filter" % verb, args=args, term=term, tag=t,
-                          expect=expect, spec=dict(crit=crit, fields={k: v for k, v in f.items()})))
+                          expect=expect, spec=dict(crit=crit, fields={k: v for k, v in f.items()}),
+                          parts=dict(unknown=unknown, wf=wf, route=coq_rroute(sf.get("route", "")), app=coq_label(sf.get("application", "")),
+                                     ep=coq_label(sf.get("endpoint_name", "")), target=coq_target(sf.get("target", "")),
+                                     state=coq_rstate(sf.get("state", "")), before=coq_before(f), limit=lterm,
+                                     preview=args.get("preview_only") is True)))
 
     verbs5 = list(IDS_PATH)
     verbs3 = list(FKIND)
